@@ -81,7 +81,8 @@ def check_one(case, rec):
     # pc_n on the multiplicity vector
     mult = list(c.values())
     _same("pc_n-vs-pc", call("pc_n", pyrepseq.pc_n, mult), want, f"pc_n({mult})")
-    for dt in (np.int64, np.float64):
+    narrow = next(d for d in (np.int8, np.uint8, np.int16, np.int32, np.int64) if max(mult) <= np.iinfo(d).max)
+    for dt in (np.int64, np.float64, np.int32, narrow):
         arr = np.array(mult, dtype=dt)
         _same("pc_n-array", call("pc_n", pyrepseq.pc_n, arr), want, f"pc_n(array {mult})")
         _same("pc_n-array-again", call("pc_n", pyrepseq.pc_n, arr), want, f"second pc_n on the same {dt.__name__} array object")
